@@ -34,14 +34,16 @@ def fact : Nat → Nat
 def closeB (S : Int) (Dp p q T : Nat) : Bool :=
   decide ((S * (q : Int) - (p : Int) * (Dp : Int)).natAbs * T ≤ q * Dp)
 
-/-- numerator of `Σ_p w_p · g0ᵃ g1ᵇ g2ᶜ`; the denominator is `D^(a+b+c+1)` -/
-def triMoment (t : List TriRow) (a b c : Nat) : Int :=
-  t.foldl (fun s r => s + r.w * r.g0 ^ a * r.g1 ^ b * r.g2 ^ c) 0
+/-- numerator of `Σ_p w_p · G₀ᵃ G₁ᵇ (1−G₀−G₁)ᶜ` — the third barycentric coordinate is the one the
+    CODE evaluates (`1.0 - dA - dB`, area.py:295), not the stored third column; the denominator is
+    `D^(a+b+c+1)` -/
+def triMoment (D : Nat) (t : List TriRow) (a b c : Nat) : Int :=
+  t.foldl (fun s r => s + r.w * r.g0 ^ a * r.g1 ^ b * ((D : Int) - r.g0 - r.g1) ^ c) 0
 
 /-- the monomial `λ₀ᵃ λ₁ᵇ λ₂ᶜ` is integrated to within `1/T`: the code halves the Jacobian, so the
     weights are normalised to `Σ w = 1` and the exact value is `2·a!b!c!/(a+b+c+2)!`. -/
 def triMomentOK (D : Nat) (t : List TriRow) (T a b c : Nat) : Bool :=
-  closeB (triMoment t a b c) (D ^ (a + b + c + 1)) (2 * fact a * fact b * fact c)
+  closeB (triMoment D t a b c) (D ^ (a + b + c + 1)) (2 * fact a * fact b * fact c)
     (fact (a + b + c + 2)) T
 
 /-- all monomials of total degree `≤ deg` -/
@@ -92,6 +94,13 @@ def gaussNodesInUnitB (D : Nat) (t : List GaussRow) : Bool :=
 def gaussSymmetricB (D : Nat) (t : List GaussRow) (T : Nat) : Bool :=
   t.all fun r => t.any fun r' =>
     decide ((r.1 + r'.1 - (D : Int)).natAbs * T ≤ D) && r'.2 == r.2
+
+/-- first monomial of total degree `≤ deg` that is not integrated to within `1/T` (diagnostics) -/
+def triFirstBad (D : Nat) (t : List TriRow) (deg T : Nat) : Option (Nat × Nat × Nat) :=
+  ((List.range (deg + 1)).flatMap fun a => (List.range (deg + 1 - a)).flatMap fun b =>
+    (List.range (deg + 1 - a - b)).map fun c => (a, b, c)).find? fun m => !triMomentOK D t T m.1 m.2.1 m.2.2
+def gaussFirstBad (D : Nat) (t : List GaussRow) (deg T : Nat) : Option Nat :=
+  (List.range (deg + 1)).find? fun d => !gaussMomentOK D t T d
 
 /-- degree of exactness the property needs of each supported rule:
     triangular rule `o` integrates degree `o`; the `n`-point Gauss rule degree `2n−1`,
